@@ -188,3 +188,13 @@ func init() {
 		mutant{Name: "reference-kinds-not-copied-by-the-argument-copier", Prop: "C04", File: "interp/run.go", Old: "\tif !v.CanSet() {\n\t\treturn v\n\t}\n\tc := reflect.New(v.Type()).Elem()\n", New: "\tif !v.CanSet() || v.Kind() == reflect.Slice {\n\t\treturn v\n\t}\n\tc := reflect.New(v.Type()).Elem()\n", Rule: "R04.18", Key: "fixArg/settable-argument-copied"},
 	)
 }
+
+func init() {
+	addMutants(
+		// round-6 seeds on C07
+		mutant{Name: "wrapper-type-remembered-per-host-interface", Prop: "C07", File: "interp/use.go", Old: "\t// Otherwise return the direct \"non-composed\" interface.\n\treturn w.Type().Elem()\n", New: "\t// Otherwise return the direct \"non-composed\" interface.\n\twrapperMemo.Store(t, w.Type().Elem())\n\treturn w.Type().Elem()\n", Also: [][3]string{{"interp/use.go", "func getWrapper(n *node, t reflect.Type) reflect.Type {\n", "var wrapperMemo sync.Map\n\nfunc getWrapper(n *node, t reflect.Type) reflect.Type {\n\tif rt, ok := wrapperMemo.Load(t); ok {\n\t\treturn rt.(reflect.Type)\n\t}\n"}, {"interp/use.go", "\t\"reflect\"\n", "\t\"reflect\"\n\t\"sync\"\n"}}, Rule: "R07.19", Key: "getWrapper/recomputed-at-each-use"},
+		mutant{Name: "results-of-a-compiled-call-recreate-redeclared-variables", Prop: "C07", File: "interp/run.go", Old: "\t\t\t\t\tif n.anc.kind == defineXStmt && !c.redeclared {\n\t\t\t\t\t\t// In case of a define statement, the destination value in the frame\n", New: "\t\t\t\t\tif n.anc.kind == defineXStmt {\n\t\t\t\t\t\t// In case of a define statement, the destination value in the frame\n", Rule: "R07.20", Key: "callBin/closure#6/slot-replaced-unless-redeclared"},
+		mutant{Name: "results-of-a-compiled-call-recreate-redeclared-variables-c04", Prop: "C04", File: "interp/run.go", Old: "\t\t\t\t\tif n.anc.kind == defineXStmt && !c.redeclared {\n\t\t\t\t\t\t// In case of a define statement, the destination value in the frame\n", New: "\t\t\t\t\tif n.anc.kind == defineXStmt {\n\t\t\t\t\t\t// In case of a define statement, the destination value in the frame\n", Rule: "R04.13", Key: "callBin/closure#6/slot-replaced-unless-redeclared"},
+		mutant{Name: "deferred-compiled-call-arguments-not-unwrapped", Prop: "C07", File: "interp/run.go", Old: "\t\t\t\tval[i+1] = fixArg(getBinValue(getMapType, v, f))\n", New: "\t\t\t\tval[i+1] = fixArg(v(f))\n", Rule: "R07.1", Key: "callBin/closure#1/arguments"},
+	)
+}
